@@ -6,8 +6,8 @@ import PenneModel.Diag.Sort
 namespace Diag
 
 /-- **every code the compiler can emit is in the published catalogue** — checked against the tables regenerated from
-    the current `error.rs` and `docs/errors.md` on every run; the eight codes of finding F8 are the only exceptions -/
-theorem codes_documented : ∀ c ∈ emittedCodes, c ∈ catalogue ∨ c ∈ knownUndocumented := by decide
+    the current `error.rs` and `docs/errors.md` on every run (the eight codes of finding F8 have been documented) -/
+theorem codes_documented : ∀ c ∈ emittedCodes, c ∈ catalogue := by decide
 
 /-- the exceptions are real: none of them is documented (if one gets documented this theorem breaks and the
     finding must be retired) -/
